@@ -227,6 +227,7 @@ def c11_vocab(run):
     rf_vocab.rf115(run)
     rf_vocab.rf121(run)
     rf_vocab.rf176(run)
+    rf_vocab.rf191(run)
     rf_vocab.rf129(run)
 
 
@@ -250,6 +251,7 @@ def c10_vocab(run):
     rf_vocab.rf143(run)
     rf_vocab.rf159(run)
     rf_vocab.rf172(run)
+    rf_vocab.rf192(run)
 
 
 def c17_rf2(run):
